@@ -325,7 +325,7 @@ func W7PositionsInDocs(maxLen int, sink Sink) {
 	})
 }
 
-// W7Adjacent: every non-control byte value immediately BEFORE and AFTER each special element of a
+// W7Adjacent: every byte value (except quote and backslash) immediately BEFORE and AFTER each special element of a
 // string (closing quote, short escape, escaped backslash, unicode escape, raw control bytes), at
 // every alignment 0..16, alone and followed by more data. Word-at-a-time scanners locate special
 // bytes with carry/borrow tricks whose false positives depend on the VALUE of the neighbouring
@@ -342,7 +342,7 @@ func W7Adjacent(aligns []int, tails []string, sink Sink) {
 		return fmt.Sprintf("byte 0x%02x %s %q at alignment %d, tail #%d", c.P[0], side, specials[c.P[1]], c.P[2], c.P[3]>>1)
 	}
 	buf := make([]byte, 0, 128)
-	for b := 0x20; b <= 0xff; b++ {
+	for b := 0x00; b <= 0xff; b++ { // control bytes too: they must be rejected wherever they stand (C07r5-m2)
 		if b == '"' || b == 0x5c {
 			continue
 		}
